@@ -911,6 +911,14 @@ type readerCfg struct {
 
 func runReader(sc *streamScenario, rec *recorder, level int) {
 	bs := buildStream(sc.Units, sc.Pkts, sc.PMTPIDs, sc.Seed, sc.Complete)
+	if sc.Run.API == "gtail" {
+		// the stream starts with a null packet whose last payload byte is 0x47: in frames of 189..192 bytes that byte sits between the two
+		// sync bytes the size detection looks for
+		np := bytes.Repeat([]byte{0xff}, 188)
+		np[0], np[1], np[2], np[3], np[187] = 0x47, 0x1f, 0xff, 0x10, 0x47
+		bs.bytes = append(np, bs.bytes...)
+		bs.pkts = append([]pktSpec{{PID: 0x1fff, K: "null"}}, bs.pkts...)
+	}
 	rec.ev(M{"ev": "reset", "t": sc.SID, "kind": "reader", "npkts": len(bs.pkts)})
 	rg := newRng(sc.Seed ^ 0x8888)
 	bound := len(bs.pkts) + len(bs.units)*4 + 10
